@@ -4,9 +4,11 @@ mod cfgs;
 mod model;
 
 mod c01;
+mod c02;
 mod c04;
 mod c05;
 mod c07;
+mod c08;
 mod c19;
 
 fn main() {
@@ -14,9 +16,12 @@ fn main() {
         |prop, ctx, rep| {
             match prop {
                 "C01" => c01::run(ctx, rep),
+                "C02" => c02::run_c02(ctx, rep),
+                "C03" => c02::run_c03(ctx, rep),
                 "C04" => c04::run(ctx, rep),
                 "C05" => c05::run(ctx, rep),
                 "C07" => c07::run(ctx, rep),
+                "C08" => c08::run(ctx, rep),
                 "C19" => c19::run(ctx, rep),
                 _ => return false,
             }
@@ -25,9 +30,12 @@ fn main() {
         |prop, ctx, rep, case| {
             match prop {
                 "C01" => c01::replay(ctx, rep, case),
+                "C02" => c02::replay_c02(ctx, rep, case),
+                "C03" => c02::replay_c03(ctx, rep, case),
                 "C04" => c04::replay(ctx, rep, case),
                 "C05" => c05::replay(ctx, rep, case),
                 "C07" => c07::replay(ctx, rep, case),
+                "C08" => c08::replay(ctx, rep, case),
                 "C19" => c19::replay(ctx, rep, case),
                 _ => return false,
             }
